@@ -539,11 +539,13 @@ int driver_main(int argc, char **argv, Engine &e) {
         else { fprintf(stderr, "unknown argument %s\n", a.c_str()); return 2; }
     }
     bool thorough = tier == "thorough";
+    if (thorough && e.thorough_run_timeout_s > 0) e.run_timeout_s = e.thorough_run_timeout_s;
     if (mode == "--gen") {
         fputs(e.gen(e.property, seed, idx, thorough).c_str(), stdout);
         return 0;
     }
     if (mode == "--exec") {
+        if (e.thorough_run_timeout_s > e.run_timeout_s) e.run_timeout_s = e.thorough_run_timeout_s;  // the plan may come from the thorough tier
         std::string plan = read_file(planfile);
         if (plan.empty()) { fprintf(stderr, "cannot read plan %s\n", planfile.c_str()); return 2; }
         {   // property is recorded in the plan header
